@@ -103,7 +103,18 @@ let handle (i : string list) (o : string list) =
             | (RFdt (id, _), npk, _) -> if not (Hashtbl.mem npk_tbl id) then Hashtbl.add npk_tbl id npk
             | _ -> ()) descs) o;
     let fdt_npk id = nat_of_int (try Hashtbl.find npk_tbl id with Not_found -> 1) in
-    let fdt_ok _ = true in
+    (* oracle fdt_ok: a Raptor session refuses an FDT instance of 2 or 3 symbols (FileDesc::new);
+       the size of the instance is what Fdt::to_xml gives before the operation (full-FDT mode) *)
+    let raptor = (List.length h > 8 && List.nth h 8 = "rp") in
+    let session_e = (if List.length h > 7 then int_of_string (List.nth h 7) else 1400) in
+    let xlens = Array.of_list (List.map (fun tok ->
+        try let ce = String.rindex tok '}' in
+          let rest = String.sub tok (ce + 1) (String.length tok - ce - 1) in
+          if String.length rest > 1 && rest.[0] = 'x' then int_of_n (n_of_hex (String.sub rest 1 (String.length rest - 1))) else 0
+        with Not_found -> 0) o) in
+    let cur_xml = ref 0 in
+    let fdt_ok _ = (if not raptor then true else
+                      let k = (!cur_xml + session_e - 1) / session_e in not (k = 2 || k = 3)) in
     let mk_op t head = match t with
           | ["A"; prio; len; e; _b; mx; car; target; allow; start] ->
             let len = int_of_string len and e = int_of_string e in
@@ -137,10 +148,12 @@ let handle (i : string list) (o : string list) =
     let st = ref (init_st full dur fcar startid queues) in
     let trace = ref [] in
     let views = ref [] in
+    let evtrace = ref [] in   (* (now, model state before the read, implementation's start/stop events) *)
     let diff = ref None in
     List.iteri (fun k (opstr, (head, view, evs)) ->
       if !diff = None then begin
         let t = split_ws opstr in
+        cur_xml := (if k < Array.length xlens then xlens.(k) else 0);
 
         let s0 = { !st with evlog = [] } in
         let iview = List.sort compare (List.map (fun (a, b) -> (int_of_n a, int_of_n b)) view) in
@@ -151,6 +164,7 @@ let handle (i : string list) (o : string list) =
            let seq = (if head = "q=-" then [] else if head = "q=HANG" then failwith "HANG"
                       else String.split_on_char ',' (String.sub head 2 (String.length head - 2))) in
            let impl_routs = List.map parse_desc seq @ [(RNothing, 0, None)] in
+           evtrace := (nowz, s0, evs) :: !evtrace;
            let cur = ref s0 in
            List.iter (fun (ir, npk, listing) ->
              if !diff = None then begin
@@ -184,6 +198,7 @@ let handle (i : string list) (o : string list) =
                   | _ -> (O, None)) in
               TRead (now, r, npk, listing)
             | _, _ -> failwith "op/out kind mismatch") in
+        (match mop with OpRead now -> evtrace := (now, s0, evs) :: !evtrace | _ -> ());
         trace := (tev, s0) :: !trace;
         views := (List.length !trace, view) :: !views;
         if mout <> iout then diff := Some (Printf.sprintf "op%d:%s:model=%s" k (String.concat "_" t) (show_out mout))
@@ -209,7 +224,16 @@ let handle (i : string list) (o : string list) =
       end
       else if prop = "c13" then begin
         if List.exists (fun (e, s0) -> match e with TRead (now, r, _, _) -> not (p_C13_priority s0 now r) | _ -> false) tr
-        then Some "P_C13_priority" else None
+        then Some "P_C13_priority"
+        else begin
+          let bad = List.filter_map (fun (now, s0, evs) ->
+              match p_C13_events fdt_npk fdt_ok divf s0 now evs with
+              | C13ok -> None
+              | C13notWaiting -> Some "P_C13_start_of_non_waiting_object"
+              | C13fifo -> Some "P_C13_fifo_admission"
+              | C13multiplex -> Some "P_C13_multiplex_bound") (List.rev !evtrace) in
+          match bad with x :: _ -> Some x | [] -> None
+        end
       end
       else if prop = "c14" then begin
         let f (e, s0) = match e with
